@@ -258,7 +258,7 @@ def minimise(pool, check_mod, program, target_sig, kf, budget=150):
 
 # ---------------------------------------------------------------------------
 def write_evidence(check_id, doc):
-    d = os.path.join(VERIF, "evidence")
+    d = os.environ.get("VERIF_EVIDENCE_DIR") or os.path.join(VERIF, "evidence")
     os.makedirs(d, exist_ok=True)
     path = os.path.join(d, f"{check_id}.json")
     tmp = path + ".tmp"
@@ -391,7 +391,8 @@ def check_main(check_id, tier, argv=None):
     if new_violations:
         # one minimised replay per distinct (property, rule)
         seen = set()
-        os.makedirs(os.path.join(VERIF, "replays"), exist_ok=True)
+        rdir = os.environ.get("VERIF_REPLAY_DIR") or os.path.join(VERIF, "replays")
+        os.makedirs(rdir, exist_ok=True)
         for prog, v in new_violations:
             s = _sig(v)
             if s in seen:
@@ -411,7 +412,7 @@ def check_main(check_id, tier, argv=None):
             small = dict(small)
             small["expect"] = {"property": s[0], "rule": s[1], "detail": hit[0].get("detail")}
             name = f'{check_id}-{small.get("seed")}-{s[1]}.json'
-            path = os.path.join(VERIF, "replays", name)
+            path = os.path.join(rdir, name)
             with open(path, "w") as f:
                 json.dump(small, f, indent=1, default=_jsonable)
             replay_paths.append(path)
